@@ -18,7 +18,11 @@ impl<const N:usize, const SIZE: usize> MemBuilder for StackN<N, SIZE>{
 
     #[inline]
     fn build(&mut self, element_layout: Layout) -> Self::Mem {
-        assert!(N*element_layout.size() <= SIZE, "Insufficient storage!");
+        let fits = match N.checked_mul(element_layout.size()){
+            Some(size) => size <= SIZE,
+            None => false
+        };
+        assert!(fits, "Insufficient storage!");
         StackNMem{
             mem: MaybeUninit::uninit(),
             element_layout
